@@ -88,10 +88,25 @@ def _pc_ens(S, a, r):
              S.eq(r.data_type, _want(S, a, "data_type")))]
 
 
+def _pc_ctor(eng, args, kw, st, fr, k, node):
+    """strax.Chunk(...) inside Plugin.chunk: what the constructor is given (then through its own contract)"""
+    from pyvc.library import contract_call
+    dt = eng.to_v(st.env["data_type"])
+    eng.oblige("plugin-chunk", "the chunk is declared with the PLUGIN's dtype for that data type (so that the constructor compares the "
+                               "data's dtype with the promised one, not with itself)", st,
+               eng.to_v(kw.get("dtype", PNONE)) == z3.Function("fn:" + DTYPE_FOR, V, V)(dt), node)
+    eng.oblige("plugin-chunk", "and with the plugin's data kind for that data type, the data and the range handed in", st,
+               z3.And(eng.to_v(kw.get("data_kind", PNONE)) == z3.Function("fn:plugin.data_kind_for", V, V)(dt),
+                      z3.BoolVal(kw.get("data") is st.env.get("data")), eng.to_v(kw.get("start", PNONE)) == eng.to_v(st.env["start"]),
+                      eng.to_v(kw.get("end", PNONE)) == eng.to_v(st.env["end"])), node)
+    return contract_call(eng, CH.chunk_init_rows, list(args), kw, st, fr, k, node)
+
+
 plugin_chunk = REG.add(Contract(
     F, "Plugin.chunk",
     params=dict(self=PLUGIN, start="V", end="V", data=INTERVALS, data_type="V", run_id="V"),
     ensures=_pc_ens,
+    calls={"strax.Chunk": _pc_ctor},
     raises={"ValueError": lambda S, a: S.true, "ValueError:runs": lambda S, a: S.true},
     notes="every constructor failure surfaces as ValueError (Chunk.__init__ contract)",
 ))
@@ -165,6 +180,13 @@ def _fo_other_ens(S, a, r):
     return out
 
 
+def _fo_comp_hook(eng, st, it, node):
+    me = st.heap[st.env["self"].base]
+    eng.oblige("fix-output", "a multi-output result is taken apart along the plugin's DECLARED outputs (every provided data type must be "
+                             "in the dict - a missing one is an error, an extra one is not passed on)", st,
+               eng.to_v(it) == eng.to_v(me["provides"]), node)
+
+
 fix_output_other = REG.add(Contract(
     F, "Plugin._fix_output", variant="result=not-a-Chunk",
     params=dict(self=PLUGIN, result="V", start="V", end="V", superrun="V", subruns="V", _dtype="V"),
@@ -174,6 +196,8 @@ fix_output_other = REG.add(Contract(
             "AssertionError": lambda S, a: S.true, "ValueError:runs": lambda S, a: S.true},
     calls=dict(_CALLS, **{"strax.dict_to_rec": _dict_to_rec}),
 ))
+fix_output_other.comp_hooks = {1: _fo_comp_hook}
+
 
 
 # --------------------------------------------------------------------------------------
@@ -218,6 +242,9 @@ down_chunk_fix_output = REG.add(Contract(
     yields=_dc_yields,
     ghost={"passed_on": _z3.Const("nothing_passed_on", _V)},
     calls={"self.superrun_transformation": _dc_transform, "zip": _dc_zip},
-    loops={1: Loop(lambda S, a: []), 2: Loop(lambda S, a: [])},
+    loops={1: Loop(lambda S, a: []),
+           2: Loop(lambda S, a: [], body_ensures=lambda S, a: [
+               ("every chunk of a yielded dict is labelled with the very key it is filed under",
+                S.eq(S.attr(a.v, "data_type"), S.v(a.data_type)))])},
     loop_ghost={1: ["passed_on"], 2: []},
 ))
